@@ -365,7 +365,7 @@ Lemma declared_method_facts P s d : valid_package to_snake P -> In s (dp_service
   (forall k, In k (method_roots (declared_client (image_env P) (fst s) d)) -> present (image_env P) k)
   /\ wf_client_method (declared_client (image_env P) (fst s) d).
 Proof.
-  intros (_ & Hnd & _ & Hl & Hwf & _) Hs Hd.
+  intros (_ & Hnd & _ & Hl & Hwf) Hs Hd.
   pose proof (in_all_methods P s d Hs Hd) as Hin.
   destruct (lookup_method (dp_pkg P) (all_methods P) (dp_schemas P) d Hin Hnd) as [L1 L2].
   split.
@@ -409,7 +409,7 @@ Proof.
   split; [reflexivity|]. split; [reflexivity|]. split.
   - exact (walk_refs_exact (image_env P) [dp_pkg P] _ _ ks Eks).
   - apply build_swagger_total.
-    + destruct Hv as (_ & _ & _ & _ & H & _). exact H.
+    + destruct Hv as (_ & _ & _ & _ & H). exact H.
     + apply Forall_forall. intros m Hm. unfold declared_clients in Hm.
       apply in_flat_map in Hm as [s [Hs Hm]]. apply in_map_iff in Hm as [d [<- Hd]].
       destruct (declared_method_facts P s d Hv Hs Hd) as [_ H]. exact H.
